@@ -51,6 +51,7 @@ type Input struct {
 	Aux   []uint64 // extra arguments (key number, offset, size, ...)
 	Keys  [][]byte // keys to query (copied from the seed)
 	Pre   []uint64 // set by Exec BEFORE the risky call: observations the model needs even when the call panics
+	Pin   bool     // a systematic case: always written to the Coq case file, never sampled out
 }
 
 // Obs is what Exec reports about a run that did not panic.
@@ -106,6 +107,41 @@ const (
 	envFrom  = "C12H_FROM"
 	envLog   = "C12H_LOG"
 )
+
+// skippedSeeds: what SkipSeed recorded while Part.Seeds ran (parent process only).
+var skippedSeeds []string
+
+// SkipSeed is called by Part.Seeds for a seed that the tree under test does not write, load or answer as a valid
+// file: the seed is left out of the run (Run records a note and the count "seed-skipped") instead of ending it.
+func SkipSeed(name string, why interface{}) {
+	w := fmt.Sprint(why)
+	if len(w) > 300 {
+		w = w[:300]
+	}
+	skippedSeeds = append(skippedSeeds, name+": "+w)
+}
+
+// KeepSeeds returns the seeds that pass check (called with the position in the given list); the others are
+// recorded with SkipSeed. A panic of check counts as not passing.
+func KeepSeeds(seeds []Seed, check func(i int, s *Seed) error) []Seed {
+	var out []Seed
+	for i := range seeds {
+		err := func() (err error) {
+			defer func() {
+				if r := recover(); r != nil {
+					err = fmt.Errorf("panic: %v", r)
+				}
+			}()
+			return check(i, &seeds[i])
+		}()
+		if err != nil {
+			SkipSeed(seeds[i].Name, err)
+			continue
+		}
+		out = append(out, seeds[i])
+	}
+	return out
+}
 
 func seedsPath(p *Part) string { return filepath.Join(vh.OutDir(), "c12_"+p.Name+"_seeds.json") }
 
@@ -260,9 +296,24 @@ func Run(t *testing.T, p *Part) {
 	rng := vh.NewRng(vh.Seed())
 	dir := filepath.Join(vh.OutDir(), "c12_"+p.Name)
 	_ = os.MkdirAll(dir, 0o755)
+	skippedSeeds = nil
 	seeds, err := p.Seeds(dir, rng)
+	// A seed that the tree under test does not write / load / answer is left out with a note: the remaining seeds and
+	// everything derived from them still run. Only a part without any seed cannot run.
+	for _, s := range skippedSeeds {
+		rep.Note("seed skipped on this tree: %s", s)
+		rep.Count("seed-skipped")
+	}
+	if err != nil && len(seeds) > 0 {
+		rep.Note("seed construction of %s stopped after %d seeds: %v", p.Name, len(seeds), err)
+		rep.Count("seed-skipped")
+		err = nil
+	}
 	if err != nil {
 		t.Fatalf("VERIF-HARNESS-BUG setup failed: seeds of %s: %v", p.Name, err)
+	}
+	if len(seeds) == 0 {
+		t.Fatalf("VERIF-HARNESS-BUG setup failed: seeds of %s: no seed loads on this tree: %s", p.Name, strings.Join(skippedSeeds, "; "))
 	}
 	sb, _ := json.Marshal(seeds)
 	if err := os.WriteFile(seedsPath(p), sb, 0o644); err != nil {
@@ -388,7 +439,7 @@ func Run(t *testing.T, p *Part) {
 		}
 		seen := map[string]bool{}
 		skipped := 0
-		var terms []string
+		var terms, pinned []string
 		for i := range ins {
 			r := results[i]
 			if r == nil || r.Class == "timeout" || r.Class == "crash" {
@@ -403,6 +454,10 @@ func Run(t *testing.T, p *Part) {
 				continue
 			}
 			seen[term] = true
+			if ins[i].Pin && i >= len(wnames) {
+				pinned = append(pinned, term) // on top of the sampled ones
+				continue
+			}
 			terms = append(terms, term)
 		}
 		// an even sample over the whole input stream (witness probes come first and are always kept)
@@ -424,7 +479,10 @@ func Run(t *testing.T, p *Part) {
 				cases.Add(rest[k*len(rest)/n])
 			}
 		}
-		rep.Note("coq cases: %d written, %d outside the modelled fragment", cases.Len(), skipped)
+		for _, t := range pinned {
+			cases.Add(t)
+		}
+		rep.Note("coq cases: %d written (%d systematic ones always kept), %d outside the modelled fragment", cases.Len(), len(pinned), skipped)
 		if err := cases.Write(); err != nil {
 			t.Fatalf("VERIF-HARNESS-BUG setup failed: %v", err)
 		}
